@@ -97,6 +97,8 @@ def gen_quals(rng, mode, n, qeq):
         return [rng.randint(4, 9) for _ in range(n)]
     if mode == 'hi':           # up to the largest printable phred, unequal values above 60
         return [rng.choice([41, 60, 61, 62, 70, 92, 93]) for _ in range(n)]
+    if mode == 'mask0':        # quality masking / overlap clipping: some bases of every read set to phred 0 (or 1, 2)
+        return [rng.choice([0, 0, 0, 1, 2]) if rng.random() < 0.2 else qeq for _ in range(n)]
     if mode == 'low':          # nothing above phred 3: every position is undecidable for the caller -> N
         return [rng.randint(0, 3) for _ in range(n)]
     return [rng.choice([0, 0, 1]) if rng.random() < 0.1 else rng.randint(2, 41) for _ in range(n)]     # incl. quality 0 ('!')
@@ -125,9 +127,11 @@ def gen_molecule(rng, ref, origin, chrom, same_start=False, max_frags=6, force_r
     rev = rng.random() < 0.4 if force_rev is None else force_rev
     n = rng.choice([1, 1, 1, 2, 2, 3, 3, 4, 5, 6][:max(1, min(10, max_frags * 2))])
     n = min(n, max_frags)
-    qmode = rng.choices(['equal', 'tri', 'any', 'lowtail', 'low', 'mid', 'hi'], [0.35, 0.21, 0.08, 0.10, 0.05, 0.12, 0.09])[0]
+    qmode = rng.choices(['equal', 'tri', 'any', 'lowtail', 'low', 'mid', 'hi', 'mask0'], [0.31, 0.19, 0.08, 0.09, 0.05, 0.11, 0.08, 0.09])[0]
     qeq = rng.choice([10, 20, 30, 30, 37, 40, 3, 4, 9])     # 3 / 4: either side of the caller's N threshold
     err = rng.choice([0.0, 0.05, 0.15, 0.3])
+    if qmode == 'mask0':
+        err, qeq = rng.choice([0.0, 0.0, 0.05]), rng.choice([20, 30, 37])
     if qmode == 'mid':
         err = 0.0          # the only disagreement is an N call in one of the reads (see gen_mate)
     gaps = rng.random() < 0.5
@@ -161,6 +165,30 @@ def gen_molecule(rng, ref, origin, chrom, same_start=False, max_frags=6, force_r
         frags.append(f)
     return {'chrom': chrom, 'frags': frags, 'strand': rev,
             'sample': 'cell%d' % rng.randint(1, 3), 'umi': ''.join(rng.choice('ACGT') for _ in range(4)), 'bc': 'ACGTAC'}
+
+
+def gen_deep(rng, ref, origin, chrom):
+    """A deep molecule: 32 / 33 / 64 / 66 observations of the same base at every position (16, 17, 32 or 33 fragments whose mates
+    overlap completely, or 33 / 64 single-end fragments), all of one quality, with no or a few single conflicting observations."""
+    rev = rng.random() < 0.4
+    length = rng.randint(8, 14)
+    q = rng.choice([20, 30, 37])
+    paired = rng.random() < 0.7
+    n = rng.choice([16, 17, 32, 33]) if paired else rng.choice([33, 64])
+    start = origin if not rev else origin - length
+    frags = []
+    for k in range(n):
+        def mate(r):
+            return {'start': start, 'rev': r, 'cigar': [{'op': 'M', 'n': length}], 'seq': list(ref[start:start + length]), 'q': [q] * length}
+        frags.append({'form': 'pair', 'r1': mate(rev), 'r2': mate(not rev)} if paired else {'form': 'r1none', 'r1': mate(rev)})
+    for _ in range(rng.choice([0, 1, 1, 3])):      # single conflicting observations
+        f = rng.choice(frags)
+        m = f[rng.choice([k for k in ('r1', 'r2') if k in f])]
+        i = rng.randrange(length)
+        if m['seq'][i] in 'ACGT':
+            m['seq'][i] = 'ACGT'[('ACGT'.index(m['seq'][i]) + rng.randint(1, 3)) % 4]
+    return {'chrom': chrom, 'frags': frags, 'strand': rev, 'sample': 'cell%d' % rng.randint(1, 3),
+            'umi': ''.join(rng.choice('ACGT') for _ in range(4)), 'bc': 'ACGTAC'}
 
 
 def mapped_reads(mol):
@@ -479,7 +507,11 @@ def main():
                 wp = rng.choice(['src', 'nosrc', 'cb', 'cbkw']) if rng.random() < 0.2 else None     # Molecule.write_pysam(consensus=True) entry
                 merge = hist_k is not None and rng.random() < 0.5       # second half arrives through add_molecule
                 crd = wp is None and cap is None and rng.random() < 0.1
-                batch.append((mol, None if wp else rng.choice([None, None, 0, 1, 3, 10, 300]), cap, hist_k, wp, merge, crd))
+                batch.append((mol, None if wp else rng.choice([None, None, 0, 0, 1, 3, 10, 300]), cap, hist_k, wp, merge, crd))
+            # deep molecules: >= 32 and >= 64 observations of one base at a position
+            for k in range(6 if tier == 'quick' else 150):
+                mol = gen_deep(rng, env.ref, rng.randint(500, 100000), rng.choice([c for c, _ in molgen.CONTIGS]))
+                batch.append((mol, rng.choice([None, 0, 10]), None, None, None, False, False))
             tid = run_api(env, emit, batch, tid, 'a')
             n_cli = 4 if tier == 'quick' else 60
             for k in range(n_cli):
